@@ -82,6 +82,7 @@ Mismatch(line, pre, post, exp) ==
   \cup (IF line.hang THEN {"hang"} ELSE {})
   \cup (IF line.exit # exp.exit THEN {"exit"} ELSE {})
   \cup (IF exp.W.alive # post.alive THEN {"alive"} ELSE {})
+  \cup (IF exp.W.now # post.now THEN {"post.now"} ELSE {})
   \cup (perGroup \ {"ok"})
 
 Branches(exp) == [g \in DOMAIN exp.res |-> exp.res[g].branch]
@@ -93,7 +94,10 @@ CheckLine(i) ==
       obs == ObsOf(line, pre, post)
       exp == RunOnce(pre, FaultSet(line), obs)
       mm == IF line.crash THEN CrashMismatch(line, pre, post, obs) ELSE Mismatch(line, pre, post, exp) \cup (IF exp.crash THEN {"crash-expected"} ELSE {})
-      viol == Violations(line, pre, post, exp)
+      \* time passes inside a scan only through a slow cloud call of the group scanned last (the generators produce nothing else):
+      \* the predicates read the clock of the pre-state, which is then the clock of every decision of the scan
+      slowOK == \A f \in FaultSet(line) : f.op = "slow" => (pre.gorder # <<>> /\ f.t = pre.gorder[Len(pre.gorder)])
+      viol == IF slowOK THEN Violations(line, pre, post, exp) ELSE {}
   IN /\ IF mm = {} THEN TRUE ELSE PrintT(ToJson([kind |-> "DIVERGENCE", line |-> i, src |-> line.src, id |-> line.id, what |-> mm,
                                   branches |-> Branches(exp),
                                   expCalls |-> exp.calls]))
